@@ -108,6 +108,8 @@ type FuncContract struct {
 	Notes      []string
 	CallSites  map[string]*CallSiteSpec
 	Asserts    []Clause
+	Allocates  []string
+	Unreachable []string
 	Ghosts     []Clause
 	File       string
 	Line       int
@@ -132,7 +134,7 @@ type PkgContracts struct {
 var clauseKeywords = map[string]bool{
 	"pred": true, "spec": true, "pool": true, "ghostfield": true, "ufun": true, "axiom": true, "lemma": true, "func": true, "extern": true,
 	"props": true, "mode": true, "requires": true, "ensures": true, "modifies": true, "loop": true,
-	"assume": true, "trusted": true, "ghost": true, "allow-panic": true, "note": true, "callsite": true, "assert": true,
+	"assume": true, "trusted": true, "ghost": true, "allow-panic": true, "note": true, "callsite": true, "assert": true, "allocates": true, "unreachable": true,
 }
 
 func parseParams(s string) ([]Param, error) {
@@ -485,6 +487,21 @@ func parseContractFile(path string, pc *PkgContracts) error {
 					return fail(c, "%v", err)
 				}
 				cur.Asserts = append(cur.Asserts, Clause{Expr: e, Src: rest, Name: f[0], Site: site})
+			case "unreachable":
+				// unreachable retN, loopN : this point is dead under the precondition (proved: its cover query is unsat)
+				for _, a := range strings.Split(c.text, ",") {
+					if a = strings.TrimSpace(a); a != "" {
+						cur.Unreachable = append(cur.Unreachable, a)
+					}
+				}
+			case "allocates":
+				// allocates result | result.N : the call returns a newly allocated object (struct pointer); all its
+				// fields (and ghost fields) are unconstrained new cells, described by the ensures clauses
+				for _, a := range strings.Split(c.text, ",") {
+					if a = strings.TrimSpace(a); a != "" {
+						cur.Allocates = append(cur.Allocates, a)
+					}
+				}
 			case "modifies":
 				cur.HasModifies = true
 				for _, m := range strings.Split(c.text, ",") {
